@@ -9,6 +9,7 @@ CONSTANTS
   L0 = "r1"
   PairSels = {"cur", "sl", "prev"}
   MaxOps = 4
+  MaxPend = 0
 INVARIANTS TypeOK C07_LeaderInISR StatusLive WitnessesAreGood
 PROPERTIES StepsOK
 VIEW MCView
